@@ -38,6 +38,10 @@ static void supplement() {
     add(id, "movw(x1, 0xffff, lsl(32))", {x1, Imm(0xffff), Imm(32)});
     add(id, "movw(x2, 1, lsl(48))", {x2, Imm(1), Imm(48)});
   }
+  // literal (label based) loads: the label is re-selected when the form is used
+  { Label lit = as.new_label();
+    add(I::kIdLdr, "ldr(x1, ptr(L))", {x1, ptr(lit)}); add(I::kIdLdr, "ldr(w1, ptr(L, 8))", {w1, ptr(lit, 8)}); add(I::kIdLdrsw, "ldrsw(x1, ptr(L))", {x1, ptr(lit)});
+    add(I::kIdLdr_v, "ldr(q1, ptr(L))", {q1, ptr(lit)}); add(I::kIdLdr_v, "ldr(d1, ptr(L, 16))", {d1, ptr(lit, 16)}); add(I::kIdAdr, "adr(x1, L)", {x1, lit}); }
   add(I::kIdRet, "ret(x30)", {x30}); add(I::kIdBlr, "blr(x3)", {x3}); add(I::kIdNop, "nop()", {});
   add(I::kIdSev, "sev()", {}); add(I::kIdSevl, "sevl()", {}); add(I::kIdWfe, "wfe()", {}); add(I::kIdWfi, "wfi()", {}); add(I::kIdYield, "yield()", {});
   add(I::kIdHint, "hint(5)", {Imm(5)});
